@@ -7,6 +7,7 @@ import (
 	"path/filepath"
 
 	"github.com/MichaelMure/git-bug/commands"
+	"github.com/MichaelMure/git-bug/zzverif/verifenv"
 )
 
 // RunCLI runs one git-bug command in-process, as a simulated process of its own, with the
@@ -45,6 +46,10 @@ func RunCLI(w *World, r *Replica, args ...string) (out string, err error) {
 	root.SetErr(io.Discard)
 	root.SetIn(nullReader{})
 	err = root.Execute()
+	// the process exits: whatever it left open is released by the kernel
+	if verifenv.ProcessExit() {
+		w.Stats.Probe("command_exited_with_backend_open")
+	}
 	return "", err
 }
 
